@@ -24,6 +24,8 @@ def setup() -> int:
 
 
 def main() -> int:
+    import warnings
+    warnings.simplefilter("ignore")
     ap = argparse.ArgumentParser()
     ap.add_argument("prop")
     ap.add_argument("--tier", default=os.environ.get("VERIF_TIER", "quick"), choices=["quick", "thorough"])
